@@ -19,7 +19,8 @@ TRUSTED = CC.TRUSTED_COMMON + [
 ]
 ASSUMPTIONS = [
     "datagrams reach RecordManager.async_updates_from_response directly (the listener's duplicate-packet guard is C16's subject)",
-    "reactions inside one phase have pairwise distinct targets, so the (hash-dependent) order in which the listener set is iterated cannot matter",
+    "the harness's listeners hash to their id, so the listener set iterates in ascending id order (the model iterates the sorted list); "
+    "reactions may hit one target twice and may remove listeners that are not registered",
     "a zero-TTL copy of a record that was not cached before the datagram produces no pair (the statement's 'previous is the cached copy iff one existed' "
     "is read over the records the datagram changes or refreshes)",
 ]
@@ -44,6 +45,18 @@ def oracle(probes, ops, obs, res):
     for idx, (op, o) in enumerate(zip(ops, obs)):
         k = op[0]
         if o["err"]:
+            if k == "LR" and o["err"] == "KeyError":
+                # (only on a tree without the D18 repair) removing a listener that is not registered, outside any datagram: the call
+                # raises, nothing else happens.  The property speaks about datagrams; not reported (notes/agents/C06.md)
+                break
+            if k == "D" and o["err"] == "KeyError" and o.get("failed"):
+                ph, lid, _, tg = o["failed"][0]
+                lost = "before the cache was updated: no record of the datagram was added or removed, " if ph == 1 else ""
+                found.append((idx, "C06:remove-absent-listener-aborts-ingestion",
+                              "listener %d's %s callback removed listener %d, which was not registered (any more); async_remove_listener let the "
+                              "KeyError of set.remove escape and async_updates_from_response raised %s%d update and %d complete calls were made "
+                              "for %d registered listeners" % (lid, "update" if ph == 1 else "complete", tg, lost, len(o["c1"]), len(o["c2"]), len(prev_ids))))
+                break
             found.append((idx, "C06:exception:%s" % o["err"], "op %r raised %s" % (op[:2], o.get("errmsg"))))
             break
         if k == "X":
@@ -138,6 +151,9 @@ def _check_calls(found, idx, now, o, info, post, l1):
         if calls or o["spy_u"] or o["spy_c"]:
             found.append((idx, "C06:called-without-updates", "the datagram at %d changes nothing, yet listeners were called (%r)" % (now, o["order"])))
         return
+    if o.get("legacy") is not None and o["legacy"] != [n for n, _ in (o["u"] or [])]:
+        found.append((idx, "C06:legacy-update_record-shim", "a listener that only implements update_record got %r, the update list has %r"
+                      % (o["legacy"][:4], [n for n, _ in (o["u"] or [])][:4])))
     if o["spy_u"] != 1 or o["spy_c"] != 1:
         found.append((idx, "C06:call-count", "a listener registered throughout got %d update calls and %d complete calls" % (o["spy_u"], o["spy_c"])))
     # every update call precedes every complete call
@@ -331,7 +347,7 @@ def run(ctx):
     done = 0
     for h in range(n_random):
         depth = rng.choice([6, 12, 25, 40, 60])
-        opts = {"listeners": [1, 2, 3, 4], "initial_listeners": rng.choice([0, 1, 2, 3]), "p_listener": rng.choice([0.05, 0.15]), "reacts": True,
+        opts = {"listeners": [1, 2, 3, 4], "initial_listeners": rng.choice([0, 1, 2, 3]), "p_listener": rng.choice([0.05, 0.15]), "reacts": True, "p_remove_absent": rng.choice([0.0, 0.04, 0.1]),
                 "p_repeat": rng.choice([0.0, 0.3, 0.5]), "p_purge": rng.choice([0.05, 0.15]), "p_flush": rng.choice([0.3, 0.6])}
         ops = CC.gen_history(rng, depth, opts)
         run_.add("random", probes_r, ops)
